@@ -299,6 +299,8 @@ def run(ctx):
     run_dag(ctx, ctx.budget(200, 5000), tiny=True)
     run_family(ctx)
     run_cyclic(ctx, ctx.budget(60, 1500))
+    import e1werr   # E1_cycles: LP of kLeastAbsErrorsCycles == WalkErrEnc.encode_klae_cycles (harness/e1werr.py)
+    e1werr.run_e1_cycles(ctx, "kLeastAbsErrorsCycles", rand_cyclic_err, ctx.budget(60, 1500), "lae-cyc-e1")
 
 
 def replay(ctx, body):
